@@ -6,7 +6,8 @@ runs in document order).  Nothing in this file looks at odf2xhtml / odf2moinmoin
 A description is plain JSON data:
 
   doc    = {'kind': 'text'|'sheet'|'pres', 'meta': {...}, 'styles': [...], 'liststyles': [...], 'body': [block]}
-  block  = ['p', style, [inline]] | ['h', level|None, style, [inline]] | ['list', style, [[block]]]
+  block  = ['p', style, [inline]] | ['h', level|None, style, [inline]] | ['list', style, [[block]], header [block]|None]
+         | ['spb']   (text:soft-page-break)
          | ['table', name, style, [[colstyle, repeat]], [[rowstyle, [cell]]]] | ['section', name, [block]]
          | ['page', name, [inline(frame)]]                                    (presentations only)
   cell   = ['cell', {'rs','cs','style'}, [block]] | ['covered']
@@ -155,9 +156,11 @@ class Gen(object):
                 out.append(['a', r.choice(HREFS) if r.random() < 0.8 else self.advstr(3), self.inlines(depth + 1, innote, True, False)])
                 self.feat.add('a')
             elif x < 0.68:
-                out.append(['s', r.choice([None, 1, 2, 3, 7])]); self.feat.add('s')
-            elif x < 0.72:
+                out.append(['s', r.choice([None, 0, 1, 1, 2, 3, 7, 40])]); self.feat.add('s')
+            elif x < 0.71:
                 out.append(['tab']); self.feat.add('tab')
+            elif x < 0.72:
+                out.append(['spb']); self.feat.add('soft-page-break')
             elif x < 0.76:
                 out.append(['br']); self.feat.add('br')
             elif x < 0.81:
@@ -194,6 +197,9 @@ class Gen(object):
         blocks = []
         for _ in range(r.choice([0, 1, 1, 2])):
             blocks.append(self.para(depth + 1, innote) if r.random() < 0.75 else self.lst(depth + 1, innote))
+        if r.random() < 0.2:
+            self.feat.add('image+textbox')
+            return ['frame', anchor, st, ['both', blocks]]
         return ['frame', anchor, st, ['textbox', blocks]]
 
     # ---------------------------------------------------------------- blocks
@@ -202,7 +208,7 @@ class Gen(object):
 
     def heading(self, depth, innote=False):
         r = self.rng
-        lvl = r.choice([1, 1, 2, 3, 4, 5, 6, 7, 10, 12])
+        lvl = r.choice([1, 1, 2, 3, 4, 5, 6, 7, 8, 9, 10, 11, 12, 25])
         if r.random() < 0.10:
             lvl = None
         if lvl is None:
@@ -225,7 +231,13 @@ class Gen(object):
                     it.append(self.para(depth + 1, innote))
             items.append(it)
         self.feat.add('list')
-        return ['list', st, items]
+        header = None
+        if r.random() < 0.25:
+            self.feat.add('list-header')
+            header = [self.para(depth + 1, innote) if r.random() < 0.7 else self.heading(depth + 1, innote)]
+            if depth + 1 < self.maxdepth and nest < 3 and r.random() < 0.3:
+                header.append(self.lst(depth + 1, innote, nest + 1))
+        return ['list', st, items, header]
 
     def table(self, depth, innote=False, sheet=False):
         r = self.rng
@@ -254,13 +266,17 @@ class Gen(object):
                         blocks.append(self.heading(depth + 1, innote))
                     else:
                         blocks.append(self.table(depth + 1, innote)); self.feat.add('nested-table')
-                cells.append(['cell', {'rs': rs, 'cs': cs, 'style': (r.choice(self.cellstyles) if self.cellstyles and r.random() < 0.5 else None)}, blocks])
+                cells.append(['cell', {'rs': rs, 'cs': cs, 'rep': r.choice([None, None, None, 2]) if not cs else None,
+                                       'style': (r.choice(self.cellstyles) if self.cellstyles and r.random() < 0.5 else None)}, blocks])
                 c += 1
                 if cs:
                     cells.append(['covered']); c += 1; self.feat.add('span-cells')
-            rows.append([r.choice([None, None, self.name(None, 0.5)]), cells])
+            rows.append([r.choice([None, None, self.name(None, 0.5)]), cells, r.choice([None, None, None, 2])])
         self.feat.add('table')
-        return ['table', self.name(None, 0.4), r.choice([None, self.name(None, 0.5)]), cols, rows]
+        nh = 0
+        if r.random() < 0.3:
+            nh = r.randint(1, len(rows)); self.feat.add('header-rows')
+        return ['table', self.name(None, 0.4), r.choice([None, self.name(None, 0.5)]), cols, rows, nh]
 
     def block(self, depth, insection=False):
         r = self.rng
@@ -273,6 +289,9 @@ class Gen(object):
             return self.lst(depth)
         if x < 0.91:
             return self.table(depth)
+        if x > 0.985:
+            self.feat.add('soft-page-break')
+            return ['spb']
         self.feat.add('section')
         kids = [self.block(depth + 1, True) for _ in range(r.randint(1, 3))]
         return ['section', self.name(None, 0.4), kids]
@@ -391,6 +410,8 @@ def build(spec):
                 e = text.S()
                 if it[1] is not None: raw(e, 'text', 'c', u'%d' % it[1])
                 parent.addElement(e)
+            elif k == 'spb':
+                parent.addElement(text.SoftPageBreak())
             elif k == 'tab':
                 parent.addElement(text.Tab())
             elif k == 'br':
@@ -415,11 +436,11 @@ def build(spec):
                 if kind == 'pres':
                     raw(f, 'svg', 'x', u'1cm'); raw(f, 'svg', 'y', u'1cm')
                 parent.addElement(f)
-                if it[3][0] == 'image':
+                if it[3][0] in ('image', 'both'):
                     if href_png[0] is None:
                         href_png[0] = d.addPictureFromString(PNG, u'image/png')
                     f.addElement(draw.Image(href=href_png[0]))
-                else:
+                if it[3][0] in ('textbox', 'both'):
                     tb = draw.TextBox(); f.addElement(tb); blocks(tb, it[3][1])
             else:
                 raise ValueError('inline %r' % (k,))
@@ -438,6 +459,8 @@ def build(spec):
                 raw(e, 'text', 'style-name', b[2]); parent.addElement(e); inl(e, b[3])
             elif k == 'list':
                 e = text.List(); raw(e, 'text', 'style-name', b[1]); parent.addElement(e)
+                if len(b) > 3 and b[3] is not None:
+                    lh = text.ListHeader(); e.addElement(lh); blocks(lh, b[3])
                 for item in b[2]:
                     li = text.ListItem(); e.addElement(li); blocks(li, item)
             elif k == 'table':
@@ -446,8 +469,14 @@ def build(spec):
                     c = table.TableColumn(); raw(c, 'table', 'style-name', cst)
                     if rep is not None: raw(c, 'table', 'number-columns-repeated', u'%d' % rep)
                     e.addElement(c)
-                for rst, cells in b[4]:
-                    r = table.TableRow(); raw(r, 'table', 'style-name', rst); e.addElement(r)
+                nh = b[5] if len(b) > 5 else 0
+                hdr = None
+                if nh:
+                    hdr = table.TableHeaderRows(); e.addElement(hdr)
+                for ri, row in enumerate(b[4]):
+                    rst, cells = row[0], row[1]
+                    r = table.TableRow(); raw(r, 'table', 'style-name', rst); (hdr if ri < nh else e).addElement(r)
+                    if len(row) > 2 and row[2]: raw(r, 'table', 'number-rows-repeated', u'%d' % row[2])
                     for cell in cells:
                         if cell[0] == 'covered':
                             r.addElement(table.CoveredTableCell())
@@ -456,8 +485,11 @@ def build(spec):
                             c = table.TableCell(valuetype=u'string') if kind == 'sheet' else table.TableCell()
                             if a.get('rs'): raw(c, 'table', 'number-rows-spanned', u'%d' % a['rs'])
                             if a.get('cs'): raw(c, 'table', 'number-columns-spanned', u'%d' % a['cs'])
+                            if a.get('rep'): raw(c, 'table', 'number-columns-repeated', u'%d' % a['rep'])
                             raw(c, 'table', 'style-name', a.get('style'))
                             r.addElement(c); blocks(c, cell[2])
+            elif k == 'spb':
+                parent.addElement(text.SoftPageBreak())
             elif k == 'section':
                 e = text.Section(name=u'x'); raw(e, 'text', 'name', b[1]); parent.addElement(e); blocks(e, b[2])
             elif k == 'page':
@@ -507,7 +539,7 @@ def visible(spec):
             elif it[0] == 'span' or it[0] == 'a':
                 if not wsonly(it[2]):
                     return False
-            elif it[0] not in ('s', 'tab', 'bm', 'bms', 'bme'):
+            elif it[0] not in ('s', 'tab', 'bm', 'bms', 'bme', 'spb'):
                 return False
         return True
 
@@ -523,6 +555,10 @@ def visible(spec):
                 del pend[:]
                 out.append(('io',)); inl(it[2], out, par, flags, pend, wsin or wsonly(it[2])); out.append(('io',))
                 del pend[:]
+            elif k == 'spb':
+                out.append(('x',))
+            elif k == 's' and it[1] == 0:
+                out.append(('io',))                         # text:c="0": no blank at all
             elif k == 's':
                 out.append(('sep', 's', 1 if it[1] is None else it[1], bool([p for p in pend if p[1].strip() != u'']), wsin))
             elif k == 'tab':
@@ -550,7 +586,7 @@ def visible(spec):
                 notes.append(nb)
             elif k == 'frame':
                 out.append(('x',))
-                if it[3][0] == 'textbox':
+                if it[3][0] in ('textbox', 'both'):
                     if _purges(it[3][1]):
                         for p in pend:
                             p[3].add('x-pending-before-textbox')
@@ -572,14 +608,16 @@ def visible(spec):
                     heads.append(par_counter[0])
                 inl(b[3], out, par_counter[0], f2, [])
             elif k == 'list':
+                if len(b) > 3 and b[3] is not None:
+                    blocks(b[3], out, flags, inbox)
                 for item in b[2]:
                     blocks(item, out, flags, inbox)
             elif k == 'table':
                 f2 = set(flags)
                 if inbox or insection:
                     f2.add('m-nested-table')
-                for rst, cells in b[4]:
-                    for cell in cells:
+                for row in b[4]:
+                    for cell in row[1]:
                         if cell[0] == 'cell':
                             blocks(cell[2], out, f2, inbox=True)
             elif k == 'section':
@@ -681,6 +719,8 @@ class Ser(object):
                 self.open('text:a', [('xlink:href', it[1])]); self.inl(it[2], depth); self.close('text:a')
             elif k == 's':
                 self.open('text:s', [('text:c', None if it[1] is None else u'%d' % it[1])], True)
+            elif k == 'spb':
+                self.open('text:soft-page-break', [], True)
             elif k == 'tab':
                 self.open('text:tab', [], True)
             elif k == 'br':
@@ -699,10 +739,10 @@ class Ser(object):
                 if self.spec['kind'] == 'pres':
                     a += [('svg:x', u'1cm'), ('svg:y', u'1cm')]
                 self.open('draw:frame', a)
-                if it[3][0] == 'image':
+                if it[3][0] in ('image', 'both'):
                     self.png = True
                     self.nl(depth + 1); self.open('draw:image', [('xlink:href', u'Pictures/c18.png')], True)
-                else:
+                if it[3][0] in ('textbox', 'both'):
                     self.nl(depth + 1); self.open('draw:text-box'); self.blocks(it[3][1], depth + 2); self.nl(depth + 1); self.close('draw:text-box')
                 self.nl(depth); self.close('draw:frame')
 
@@ -717,6 +757,8 @@ class Ser(object):
                 self.inl(b[3], depth); self.close('text:h')
             elif k == 'list':
                 self.open('text:list', [('text:style-name', b[1])])
+                if len(b) > 3 and b[3] is not None:
+                    self.nl(depth + 1); self.open('text:list-header'); self.blocks(b[3], depth + 2); self.nl(depth + 1); self.close('text:list-header')
                 for item in b[2]:
                     self.nl(depth + 1); self.open('text:list-item'); self.blocks(item, depth + 2); self.nl(depth + 1); self.close('text:list-item')
                 self.nl(depth); self.close('text:list')
@@ -725,8 +767,15 @@ class Ser(object):
                 for cst, rep in b[3]:
                     self.nl(depth + 1)
                     self.open('table:table-column', [('table:style-name', cst), ('table:number-columns-repeated', None if rep is None else u'%d' % rep)], True)
-                for rst, cells in b[4]:
-                    self.nl(depth + 1); self.open('table:table-row', [('table:style-name', rst)])
+                nh = b[5] if len(b) > 5 else 0
+                if nh:
+                    self.nl(depth + 1); self.open('table:table-header-rows')
+                for ri, row in enumerate(b[4]):
+                    rst, cells = row[0], row[1]
+                    if nh and ri == nh:
+                        self.nl(depth + 1); self.close('table:table-header-rows')
+                    self.nl(depth + 1); self.open('table:table-row', [('table:style-name', rst),
+                        ('table:number-rows-repeated', u'%d' % row[2] if len(row) > 2 and row[2] else None)])
                     for cell in cells:
                         self.nl(depth + 2)
                         if cell[0] == 'covered':
@@ -736,13 +785,18 @@ class Ser(object):
                             self.open('table:table-cell', [('office:value-type', u'string' if self.spec['kind'] == 'sheet' else None),
                                                             ('table:number-rows-spanned', u'%d' % a['rs'] if a.get('rs') else None),
                                                             ('table:number-columns-spanned', u'%d' % a['cs'] if a.get('cs') else None),
+                                                            ('table:number-columns-repeated', u'%d' % a['rep'] if a.get('rep') else None),
                                                             ('table:style-name', a.get('style'))])
                             self.blocks(cell[2], depth + 3)
                             if cell[2]:
                                 self.nl(depth + 2)
                             self.close('table:table-cell')
                     self.nl(depth + 1); self.close('table:table-row')
+                if nh and nh >= len(b[4]):
+                    self.nl(depth + 1); self.close('table:table-header-rows')
                 self.nl(depth); self.close('table:table')
+            elif k == 'spb':
+                self.open('text:soft-page-break', [], True)
             elif k == 'section':
                 self.open('text:section', [('text:name', b[1])]); self.blocks(b[2], depth + 1); self.nl(depth); self.close('text:section')
             elif k == 'page':
